@@ -149,6 +149,31 @@ class Generator:
         self.bump_cells = [n for n, _, k, _ in bump_fields if k == 'cell']
         return '\n'.join(out)
 
+    def gen_table(self, ln):
+        """`//@table NAME file=PATH static=IDENT`: the `static IDENT: [u8; N] = [...]` of the source, read on every run and emitted as a spec
+        function over run-length encoded ranges plus the (trusted: array indexing) exec accessor `NAME_at(i)`"""
+        toks = ln.split()
+        name = toks[1]
+        opts = dict(t.split('=', 1) for t in toks[2:])
+        path = os.path.join(REPO, opts['file'])
+        txt = open(path).read()
+        m = re.search(r'static\s+%s\s*:\s*\[u8;\s*(\d+)\]\s*=\s*\[(.*?)\];' % re.escape(opts['static']), strip_comments(txt, mask(txt)), re.S)
+        if not m:
+            raise ExtractError('table %s not found in %s' % (opts['static'], opts['file']))
+        vals = [int(x) for x in re.findall(r'\d+', m.group(2))]
+        if len(vals) != int(m.group(1)):
+            raise ExtractError('table %s: %d entries, declared %s' % (opts['static'], len(vals), m.group(1)))
+        runs, a = [], 0
+        for k in range(1, len(vals) + 1):
+            if k == len(vals) or vals[k] != vals[a]:
+                runs.append((a, k - 1, vals[a])); a = k
+        body = ' else '.join('if %d <= i <= %d { %du8 }' % r for r in runs) + ' else { 0u8 }'
+        self.consts['table:' + opts['static']] = hashlib.sha256(str(vals).encode()).hexdigest()[:12]
+        self.rule_log['table-from-source'] = self.rule_log.get('table-from-source', 0) + 1
+        return ('// generated from `static %s` in %s (%d entries, %d runs)\npub open spec fn %s(i: int) -> u8 { %s }\n'
+                '#[verifier::external_body]\npub fn %s_at(i: usize) -> (r: u8) requires i < %d ensures r == %s(i as int) { unimplemented!() }'
+                % (opts['static'], opts['file'], len(vals), len(runs), name, body, name, len(vals), name))
+
     def gen_footer_setters(self):
         out = []
         for n, t, kind, real in self.footer_fields:
@@ -206,7 +231,7 @@ class Generator:
             rng = None
         elif impl == 'nestedfn':
             # a `fn` item declared inside the body of another function of the main impl block
-            outer = self.src.impl_block_containing(r'^impl<const MIN_ALIGN: usize> Bump<MIN_ALIGN>$', spec['nested_in'])
+            outer = self.src.impl_block_containing(spec['outer_impl'].replace('~', ' ') if spec.get('outer_impl') else r'^impl<const MIN_ALIGN: usize> Bump<MIN_ALIGN>$', spec['nested_in'])
             _s, o_, c_ = self.src.find_fn(spec['nested_in'], outer)
             rng = (o_, c_)
         elif impl.startswith('re:'):
@@ -223,7 +248,7 @@ class Generator:
             'drain_drop': spec.get('drain_drop'),
             'cand': spec.get('cand'), 'cb': spec.get('cb'), 'splice_drop': spec.get('splice_drop'), 'dfilter': spec.get('dfilter'),
             'trait_grow': spec.get('trait_grow'),
-            'wbase': spec.get('wbase'), 'wsize': spec.get('wsize'), 'outer': spec.get('src', spec['name']),
+            'wbase': spec.get('wbase'), 'wsize': spec.get('wsize'), 'outer': spec.get('src', spec['name']), 'strip_fns': spec.get('strip_fns'),
             'guard': spec.get('guard'),
             'strip_nested': spec.get('strip_nested'),
             'drop_takes_state': spec.get('drop_takes_state'),
@@ -550,6 +575,8 @@ class Generator:
                 continue
             if ln.startswith('//@#'):
                 continue
+            if ln.startswith('//@table '):
+                emit(self.gen_table(ln)); continue
             if ln.startswith('//@structs'):
                 emit(structs); continue
             if ln.startswith('//@footer_setters'):
